@@ -293,7 +293,7 @@ func (b *Batcher) Add(event *Event) {
 
 	batch := b.getBatch()
 	batch.append(event)
-	verifTrace(vtBatchAdd, b, int64(event.SeqID), int64(event.SourceID), int64(event.Size), int64(event.kind))
+	verifTrace(vtBatchAdd, b, int64(event.SeqID), verifID(event.stream), int64(event.Size), int64(event.kind))
 
 	b.trySendBatchAndUnlock(batch)
 }
